@@ -60,6 +60,14 @@ FailedBag(o, ob, r) ==
                   \* hash and serialisation of a cell equal those of the same value rebuilt from fresh objects
                   \cup Mk("frame", "result_depends_on_history",
                           \A j \in 1..Len(r.post) : r.post[j].k = "cell" => (r.post[j].h = r.post[j].fh /\ r.post[j].s = r.post[j].fs))
+                  \* what builders and slices report about their room is what their content implies
+                  \* (used / available bits, whole bytes and references; remaining bits and references)
+                  \cup (LET roomok == \A j \in 1..Len(r.post) :
+                                LET p == r.post[j] IN
+                                Has(p, "room") =>
+                                   IF p.k = "builder" THEN p.room = <<p.n, 1023 - p.n, (1023 - p.n) \div 8, 4 - Len(p.r)>>
+                                   ELSE p.room = <<p.n, Len(p.r)>>
+                       IN Mk("value", "room_report_wrong", roomok) \cup Mk("guard", "room_report_wrong", roomok))
                   \* every live object must stay observable (hash, to_boc, bits, refs) after every call
                   \cup (IF Has(r, "broken") THEN {<<"value", "live_object_unobservable">>, <<"guard", "live_object_unobservable">>,
                                                    <<"frame", "live_object_unobservable">>} ELSE {})
